@@ -314,7 +314,10 @@ def main(prop, argv=None):
         'property_id': pid, 'tier': args.tier, 'seed': args.seed, 'level': 'proof',
         'coverage': {
             'obligations': g['obligations'], 'discharged': g['discharged'],
-            'checker_cmd': 'cd lean/DitModel && lake build DitModel && lake env lean <#print axioms of every theorem in DitModel/Props/%s.lean>' % pid,
+            'checker_cmd': ('cd lean/DitModel && lake build DitModel ditdriver %s && lake env lean <#print axioms of every theorem in %s>'
+                            % (' '.join('DitModel.Props.' + m for m in leangate.prop_files(pid)),
+                               ', '.join('DitModel/Props/%s.lean' % m for m in leangate.prop_files(pid)))),
+            'theorem_files': ['DitModel/Props/%s.lean' % m for m in leangate.prop_files(pid)],
             'trusted_base': TRUSTED_BASE + list(getattr(prop, 'trusted_extra', [])),
             'theorems': g['theorems'], 'axioms': g.get('axioms', {}), 'partial_theorems': g['partial'],
             'lean_problems': g['problems'], 'leanchecker': g.get('leanchecker'),
